@@ -734,6 +734,11 @@ class Messenger(Connection):
                     self.close()
                     return
 
+                # Octets received ahead of the handshake are not protected by it
+                if self.__rx_buf:
+                    self._logger.warning('Discarding %d octets received before TLS', len(self.__rx_buf))
+                    self.__rx_buf = b''
+
             # Check policy after attempt
             if self._config.require_tls is not None:
                 if self.is_secure() != self._config.require_tls:
